@@ -1,5 +1,5 @@
 CONSTANTS
-  Periods <- P123
+  Periods <- P14
   Depth = 6
 SPECIFICATION Spec
 INVARIANTS Conform BatchInv RenkoIterInv Emit
